@@ -218,7 +218,7 @@ def nx2diagram(graph, ob_factory, id_factory):
     scan, diagram = inputs, _id(_ty(*[node.obj for node in inputs]))
     for depth, box_node in enumerate(boxes):
         box = box_node.box
-        offset = getattr(box_node, "offset", 0)
+        offset = getattr(box_node, "offset", None) or 0
         for i, obj in enumerate(box.dom):
             dom_node = Node("dom", obj=obj, i=i, depth=depth)
             edge, = graph.in_edges(dom_node)
